@@ -462,6 +462,11 @@ def c18_units(tier, seed):
         us.append(dict(id=f"C18b[base={b}]", harness="calendar.VH_C18_Laws", params={"Y": b}))
     us.append(dict(id="C18c", harness="calendar.VH_C18_Tables", params={}))
     us += list_units("C18d")
+    # the hour object's attributes by (early-rat day pillar, hour pillar); the chart's attributes by its pillars (same units as C11b)
+    for b in ((2020,) if q else (2020, 1990, 15)):
+        us.append(dict(id=f"C18e[base={b}]", harness="calendar.VH_C18_TimePure", params={"Y": b}))
+        for sect in (1, 2):
+            us.append(dict(id=f"C18f[sect={sect},base={b}]", harness="calendar.VH_C11_PillarPure", params={"Y": b, "SECT": sect}))
     return us
 
 
